@@ -48,6 +48,8 @@ def main():
         except KeyboardInterrupt:
             res.disagree('the exploration did not finish within %.0f s (an implementation call hangs or has become extremely slow)' % deadline,
                          None, None, None, sig={'harness_error': 'deadline'})
+        except SystemExit as e:  # code under test called exit(): must not end the check (with whatever status it chose)
+            res.disagree('the implementation called exit(%r) in the middle of the exploration' % (e.code,), None, None, None, sig={'harness_error': 'SystemExit'})
         except (MemoryError, common.ImplTimeout) as e:
             res.disagree('implementation call exhausted memory or time: ' + repr(e), None, None, None, sig={'harness_error': repr(e)})
         except Exception as e:  # harness failure must not look like success
